@@ -7,7 +7,7 @@ PID = "C14"
 MANIFEST_ENTRY = {
  "level_claimed": {
   "category": "proof",
-  "text": "Theorems in coq/Properties/C14.v about an executable model of data/src/data/parsing.rs, for all inputs by induction: every radix literal 0R_digits (R in 2..36, any valid digits, any placement of `_` separators) parses to the value of the digits in radix R when it fits an i32 and is rejected otherwise (R<>10); every non-negative i32 has a spelling in every radix, and a decimal spelling with separators, that parses back to it; a decimal fraction digits.digits is converted by the IEEE-754 round-to-nearest-even of its decimal value (via Flocq; partial: no separators/exponent in the theorem, exponent clamps excluded); every char-list literal made of raw characters, backslash escapes and \\u{hex} escapes parses to exactly the characters those items denote, for every quote count and every (multi-byte) character, and every string has such a spelling; the same for byte lists in text form and for byte vectors in numeric form; the CharList/ByteList headers written by both data implementations make every stored character readable at its index and a symbol keeps its name. The model (including its own str::parse::<f64>) is tied to the Rust code on every run by running both on the same literals (direct calls of the parsing functions and one-literal programs lexed, parsed, built and executed on SimpleGarnishData and BasicGarnishData, read back through the public getters), and an independent Python oracle (spell -> evaluate -> compare) checks the implementation directly.",
+  "text": "Theorems in coq/Properties/C14.v about an executable model of data/src/data/parsing.rs, for all inputs by induction: every radix literal 0R_digits (R in 2..36, any valid digits, any placement of `_` separators) parses to the value of the digits in radix R when it fits an i32 and is rejected otherwise (R<>10); every non-negative i32 has a spelling in every radix, and a decimal spelling with separators, that parses back to it; a decimal fraction digits.digits is converted by the IEEE-754 round-to-nearest-even of its decimal value (via Flocq, for every mantissa and exponent; partial: the text-level theorem covers digits.digits without separators/exponent); every char-list literal made of raw characters, backslash escapes and \\u{hex} escapes parses to exactly the characters those items denote, for every quote count and every (multi-byte) character, and every string has such a spelling; the same for byte lists in text form and for byte vectors in numeric form; the CharList/ByteList headers written by both data implementations make every stored character readable at its index and a symbol keeps its name. The model (including its own str::parse::<f64>) is tied to the Rust code on every run by running both on the same literals (direct calls of the parsing functions and one-literal programs lexed, parsed, built and executed on SimpleGarnishData and BasicGarnishData, read back through the public getters), and an independent Python oracle (spell -> evaluate -> compare) checks the implementation directly.",
   "design_ref": "DESIGN.md section 8 C14"
  },
  "level_note": "Trusted: Coq kernel; Flocq's four standard-library axioms (float theorems only; the integer, text and byte theorems are closed under the global context); extraction (ExtrOcamlBasic only); the Rust harness and the Python oracle. Partial: the lexer is not part of the model (C13) - that a spelling lexes as ONE literal token is checked on the implementation only; `every finite float has a spelling` is checked on the implementation (Rust's shortest `{}` form, Python float() as oracle) and not a theorem; char::is_numeric on non-ASCII characters and symbol_value (SipHash) are oracles. Seven defects were found and fixed in /repo (known_findings.json, fixed).",
